@@ -219,22 +219,11 @@ theorem order_indep_val : ∀ (v w : PyVal), Equiv v w → sortable v = true →
     rename_i j f' ys
     obtain ⟨rfl, ys', hperm, hl⟩ := he
     simp only [sortable] at hs
-    cases hsc : asScalars xs with
-    | none => rw [hsc] at hs; cases hs
-    | some ks =>
-      rw [hsc] at hs
-      simp only [] at hs
-      have hxs := asScalars_eq_map hsc
-      subst hxs
-      have hys' := EquivList_scalars ks ys' hl
-      subst hys'
-      -- ys is a permutation of scalars, hence itself a list of scalars
-      obtain ⟨ks', rfl, hkp⟩ := perm_scalars hperm
-      obtain ⟨s, e1, e2⟩ := set_sorted_eq ks ks' hkp hs
-      have p1 := preList_scalars (asScalars_map_sc ks)
-      have p2 := preList_scalars (asScalars_map_sc ks')
-      exact ⟨_, _, by simp only [pre, p1, e1, except_bind_ok, except_pure]; rfl,
-        by simp only [pre, p2, e2, except_bind_ok, except_pure]; rfl, EncEq.of_parts H rfl⟩
+    obtain ⟨ps, qs', h1, h2, h3⟩ := order_indep_list xs ys' hl hs
+    obtain ⟨qs, h4, h5⟩ := preList_perm hperm h2
+    refine ⟨_, _, by simp only [pre, h1, except_bind_ok, except_pure]; rfl,
+      by simp only [pre, h4, except_bind_ok, except_pure]; rfl, EncEq.of_parts H ?_⟩
+    rw [evalPureList_setNode, evalPureList_setNode, h3, sortDigests_perm_eq (h5.map (evalPure H))]
   | .dict i xs, w, he, hs => by
     cases w <;> simp only [Equiv] at he
     rename_i j ys
